@@ -1,5 +1,5 @@
 """C17 — results do not depend on the unit system (dimensional homogeneity); coefficient linearity."""
-from corr import corr_mesh, corr_terms, corr_tvd, corr_ghost, corr_assemble
+from corr import corr_mesh, corr_terms, corr_tvd, corr_ghost, corr_assemble, corr_means
 import solversearch as SS
 
 MODULES = ["PyFV.Props.C17"]
@@ -8,7 +8,7 @@ TRANSLATORS = {"T-lim": "python3 harness/translate/tlim.py lean/PyFV/Gen/Limiter
 
 def corr(rng, tier):
     k = 1 if tier == "quick" else 8
-    return [corr_terms(rng, 108 * k), corr_tvd(rng, 27 * k), corr_ghost(rng, 36 * k), corr_assemble(rng, 27 * k)]
+    return [corr_terms(rng, 108 * k), corr_tvd(rng, 27 * k), corr_ghost(rng, 108 * k), corr_assemble(rng, 27 * k), corr_means(rng, 72 * k)]
 
 
 def search(rng, tier, broken, cases):
